@@ -261,6 +261,27 @@ def shards(tier, seed):
                         out.append({'kind': 'laws', 'cls': cls, 'n_cond': n_cond, 'k': k, 'rep': rep,
                                     'fill': fill})
     out.append({'kind': 'laws', 'cls': 'base'})
+    # G: high-volume non-negative least squares family: every set of k distinct RDMs of 1-d point
+    #    configurations on a small grid as basis (distance-like, strongly correlated regressors:
+    #    weights leave and re-enter the active set), judged against the brute-force optimum
+    for n_cond, levels, k, methods, fam_fills, step in _nnls_plan(tier):
+        n_rdm = len(_grid(n_cond, levels))
+        total = math.comb(n_rdm, k)
+        chunk = 300 * step
+        for method, sigma in methods:
+            for fill in fam_fills:
+                for start in range(0, total, chunk):
+                    out.append({'kind': 'nnls', 'n_cond': n_cond, 'levels': levels, 'k': k,
+                                'method': method, 'sigma': sigma, 'fill': fill,
+                                'range': [start, min(total, start + chunk), step]})
+    # H: sequences of fits on ONE model object (a fit must leave model and data untouched)
+    for mkind in ('weighted', 'select', 'interpolate'):
+        for rep in ('rdms', 'array'):
+            for n_cond, k in (((4, 2), (4, 3), (5, 3)) if thorough else ((5, 3),)):
+                for first in _seq_steps(mkind):
+                    out.append({'kind': 'sequences', 'model': mkind, 'rep': rep, 'n_cond': n_cond,
+                                'k': k, 'n_data': 2, 'fill': 0, 'first': first,
+                                'length': 3 if (thorough and mkind == 'weighted' and n_cond == 4) else 2})
     # F: sigma_k forms accepted by compare() but not documented for the fitters (report only)
     out.append({'kind': 'sigma_forms'})
     return out
@@ -610,6 +631,12 @@ def run_shard(shard, ctx):
     if kind in ('laws', 'sigma_forms', 'explore'):
         run_case(shard, ctx)
         return
+    if kind == 'nnls':
+        _run_nnls_shard(shard, ctx)
+        return
+    if kind == 'sequences':
+        _run_sequences_shard(shard, ctx)
+        return
     tier = ctx.tier
     base = {k_: v for k_, v in shard.items() if k_ not in ('plan',)}
     fitter = shard['fitter']
@@ -661,12 +688,200 @@ def run_case(case, ctx):
         _run_order(case, ctx)
     elif kind == 'explore':
         _explore(case, ctx)
+    elif kind == 'nnls_case':
+        _run_nnls(case, ctx)
+    elif kind == 'sequence':
+        _run_sequence(case, ctx)
     elif kind == 'laws':
         _laws(case, ctx)
     elif kind == 'sigma_forms':
         _sigma_forms(case, ctx)
     else:
         raise ValueError(kind)
+
+
+# ----------------------------------------------------------------------------- G: NNLS family
+_GRID_CACHE = {}
+
+
+def _grid(n_cond, levels):
+    key = (n_cond, levels)
+    if key not in _GRID_CACHE:
+        _GRID_CACHE[key] = ref.grid_rdms(n_cond, tuple(range(levels)), 1)
+    return _GRID_CACHE[key]
+
+
+def _nnls_plan(tier):
+    """(n_cond, grid levels, k basis RDMs, [(method, sigma)], data fills, every n-th basis set)"""
+    plain = [('cosine', 'none')]
+    if tier == 'quick':
+        return [(4, 3, 3, plain, [0], 1), (4, 3, 4, plain, [0], 8),
+                (4, 3, 3, [('corr', 'none'), ('cosine_cov', 'none')], [1], 5)]
+    return [(4, 3, 3, [('cosine', 'none'), ('corr', 'none'), ('cosine_cov', 'none'),
+                       ('cosine_cov', 'spd')], [0, 1, 2], 1),
+            (4, 3, 4, plain, [0, 1], 1), (4, 3, 4, [('corr', 'none')], [0], 3),
+            (4, 3, 5, plain, [0], 10), (5, 3, 3, plain, [0], 8), (5, 3, 4, plain, [1], 400)]
+
+
+def _nnls_data(seed, n_cond, levels, fill):
+    """training stack of two RDMs: fixed positive fills; fill 2 = two RDMs of the grid family
+    plus a small fill"""
+    L = n_cond * (n_cond - 1) // 2
+    g = rng_for(seed, 'c08nnls', n_cond, fill)
+    data = g.uniform(0.2, 2.0, size=(2, L))
+    if fill == 2:
+        G = _grid(n_cond, levels)
+        data = 0.2 * data + np.array([G[len(G) // 3], G[(2 * len(G)) // 3]])
+    return np.round(data, 3).tolist()
+
+
+def _run_nnls_shard(shard, ctx):
+    k = shard['k']
+    n_rdm = len(_grid(shard['n_cond'], shard['levels']))
+    start, stop, step = shard['range']
+    combos = itertools.islice(itertools.combinations(range(n_rdm), k), start, stop, step)
+    for combo in combos:
+        c = {k_: v for k_, v in shard.items() if k_ != 'range'}
+        c['combo'] = list(combo)
+        c['kind'] = 'nnls_case'
+        run_case(c, ctx)
+
+
+def _run_nnls(case, ctx):
+    from rsatoolbox.rdm import RDMs
+    from rsatoolbox import model as M
+    from rsatoolbox.model import fitter as F
+    n, method = case['n_cond'], case['method']
+    G = _grid(n, case['levels'])
+    basis = [list(G[i]) for i in case['combo']]
+    data = _nnls_data(ctx.seed, n, case['levels'], case['fill'])
+    if not ref.regressors_independent(method, basis):
+        ctx.exclude('basis RDMs linearly dependent (weights not identified)')
+        return
+    jc = dict(case, fitter='fit_regress_nn', n_data=2, normalize=True)
+    sig_lib, sig_ref = _sigma(case['sigma'], n, ctx.seed)
+    pos = list(range(n))
+    sigp = 'fit_regress_nn|%s' % _cfg(jc)
+    with ctx.guard(sigp, case):
+        model = M.ModelWeighted('m', RDMs(np.array(basis, dtype=float)))
+        theta = np.asarray(F.fit_regress_nn(model, RDMs(np.array(data, dtype=float)), method=method,
+                                            sigma_k=sig_lib, ridge_weight=0, normalize=True))
+        ctx.case(case)
+        if theta.shape != (case['k'],) or not np.all(np.isfinite(theta)):
+            ctx.fail(sigp + '|theta-shape-or-nonfinite', case, 'theta=%r' % (theta,))
+            return
+        if np.any(theta < 0):
+            ctx.fail('fit_regress_nn|method=%s|negative-weight' % method, case, 'theta=%r' % (theta,))
+        star = ref.optimum(method, basis, pos, data, sig_ref, True)
+        s_hat = ref.score(method, 'weighted', basis, theta, pos, data, sig_ref)
+        if star is None:
+            if s_hat is None and not np.any(theta):
+                ctx.exclude('no non-negative direction with positive similarity (fit returns 0)')
+                return
+            s_star = None
+        else:
+            s_star = ref.score(method, 'weighted', basis, star, pos, data, sig_ref)
+        if s_hat is None:
+            ctx.fail(sigp + '|prediction-undefined', case,
+                     'theta_hat=%r; brute-force optimum %r scores %r'
+                     % (theta.tolist(), None if star is None else star.tolist(), s_star))
+            return
+        if abs(float(np.sqrt(np.sum(theta ** 2))) - 1.0) > 1e-9:
+            ctx.fail('fit_regress_nn|method=%s|not-unit-norm' % method, case, 'theta=%r' % (theta,))
+        if s_star is not None:
+            ctx.dev('fit_regress_nn/grid family excess of brute-force optimum', max(0.0, s_star - s_hat))
+            if s_star > s_hat + TOL_CLOSED:
+                ctx.fail(sigp + '|not-optimal', case,
+                         'basis = grid RDMs %s; score(theta_hat=%s)=%.10g < score(brute-force active-set '
+                         'optimum %s)=%.10g (tol %g)' % (case['combo'], np.round(theta, 8).tolist(), s_hat,
+                                                         np.round(star, 8).tolist(), s_star, TOL_CLOSED))
+        ctx.outcome(('nnls', tuple(bool(t == 0) for t in theta)))
+
+
+# ----------------------------------------------------------------------------- H: sequences
+def _seq_steps(mkind):
+    """alphabet of one step: (fitter, method, sigma, index vector or None)"""
+    fitters = {'weighted': ('fit_regress', 'fit_regress_nn'), 'select': ('fit_select',),
+               'interpolate': ('fit_interpolate',)}[mkind]
+    out = []
+    for f in fitters:
+        for method, sigma in METHSIG:
+            out.append([f, method, sigma, None])
+    out.append([fitters[0], 'corr', 'none', 'boot'])     # a step WITH a pattern selection
+    return out
+
+
+def _run_sequences_shard(shard, ctx):
+    alpha = _seq_steps(shard['model'])
+    base = {k_: v for k_, v in shard.items() if k_ not in ('first', 'length')}
+    for rest in itertools.product(alpha, repeat=shard['length'] - 1):
+        run_case(dict(base, kind='sequence', steps=[shard['first']] + [list(r) for r in rest]), ctx)
+
+
+def _bits(a):
+    return np.ascontiguousarray(np.asarray(a, dtype=float)).tobytes()
+
+
+def _run_sequence(case, ctx):
+    """several fits one after the other on ONE model object and ONE data object: every fit must
+    be optimal for the basis the model was built from, and leave model and data untouched"""
+    from rsatoolbox.rdm import RDMs
+    from rsatoolbox import model as M
+    seed = ctx.seed
+    n, k, mkind = case['n_cond'], case['k'], case['model']
+    common = {'n_cond': n, 'k': k, 'n_data': case['n_data'], 'fill': case['fill'], 'mask': [],
+              'desc': 'index'}
+    basis, data_full = _problem(seed, n, k, case['n_data'], case['fill'], [])
+    orig = np.array(basis, dtype=float)
+    klass = {'weighted': M.ModelWeighted, 'select': M.ModelSelect, 'interpolate': M.ModelInterpolate}[mkind]
+    arr = orig.copy()                       # the caller's own array (rep == 'array')
+    model = klass('m', RDMs(arr) if case['rep'] == 'rdms' else arr)
+    boot = list(range(n - 1, 0, -1)) + [1]  # one condition twice, one never
+    data_objs = {}
+    for i, (fitter, method, sigma, idx) in enumerate(case['steps']):
+        idx = boot if idx == 'boot' else None
+        sc = dict(common, kind='fit', fitter=fitter, method=method, sigma=sigma, idx=idx,
+                  normalize=True, menu=0)
+        S = _build(sc, seed)
+        if not _posed(sc, S):
+            ctx.exclude(NOT_POSED)
+            continue
+        S['model'] = model
+        key = 'boot' if idx else 'all'
+        if key in data_objs:
+            S['data'] = data_objs[key]      # the same training data object is re-used as well
+        data_objs[key] = S['data']
+        data_before = _bits(S['data'].dissimilarities)
+        holders = lambda: (('model.rdm', model.rdm), ('model.rdm_obj', model.rdm_obj.dissimilarities),
+                           ("caller's array", arr))
+        before = [_bits(a) for _, a in holders()]
+        fname = fitter
+        tag = dict(case, step=i)
+        with ctx.guard('%s|%s,sequence' % (fname, _cfg(sc)), tag):
+            theta = _call(sc, S, seed)
+            ctx.case(tag)
+            if _bits(S['data'].dissimilarities) != data_before:
+                ctx.fail('%s|method=%s|modifies-training-data' % (fname, method), tag,
+                         'training RDMs changed by the fit')
+            changed = [w for (w, a), b in zip(holders(), before) if _bits(a) != b]
+            if changed:      # blamed on the call that did it; later steps see the damage below
+                ctx.fail('%s|method=%s|modifies-model-basis' % (fname, method), tag,
+                         '%s changed during step %d %r (no longer the basis RDMs the model was built from); '
+                         'max change %.4g' % (changed, i, case['steps'][i],
+                                              float(np.nanmax(np.abs(np.asarray(model.rdm, float) - orig)))))
+            tt = int(theta) if mkind == 'select' else np.asarray(theta, dtype=float)
+            want = ref.predict(mkind, basis, tt)
+            got = np.asarray(model.predict(tt), dtype=float)
+            got_r = np.asarray(model.predict_rdm(tt).get_vectors(), dtype=float)
+            if got_r.shape != (1, len(want)) or not allclose(got, want, 1e-9) or not allclose(got_r[0], want, 1e-9):
+                ctx.fail('Model%s|after-fit|prediction-differs-from-original-basis' % mkind.capitalize(), tag,
+                         'after step %d %r predict(theta_hat) is not the prediction from the basis RDMs the '
+                         'model was built from (max deviation %.4g)'
+                         % (i, case['steps'][i], float(np.nanmax(np.abs(got - np.array(want))))))
+            if mkind == 'weighted':
+                _judge_weighted(sc, ctx, S, theta, fname)
+            else:
+                _judge_candidates(sc, ctx, S, theta, fname)
 
 
 # ----------------------------------------------------------------------------- C: explorer
